@@ -478,6 +478,14 @@ func cmdCounts(args []string) int {
 			if r.VectorsOnly && !c.Vectors {
 				continue
 			}
+			// an obligation tagged with a property the rule does not declare would never be checked
+			for _, o := range runRule(&Rule{ID: r.ID, Run: r.Run}, p, "") {
+				for _, op := range o.Props {
+					if !r.serves(op) {
+						fmt.Printf("UNDECLARED %s %s serves %s, which the rule does not declare\n", r.ID, o.Key, op)
+					}
+				}
+			}
 			for _, prop := range r.Props {
 				saved := r.Floor
 				r.Floor = nil
